@@ -7,7 +7,7 @@ goroutines, each issuing any number of calls with any keys, the user function re
 number of other goroutines' steps.
 -/
 import GoZero.C07.ProofsSFX
-import GoZero.C07.ProofsLC
+import GoZero.C07.ProofsLCX
 import GoZero.C07.ProofsRM
 set_option linter.unusedSimpArgs false
 namespace GoZero.C07
@@ -92,6 +92,7 @@ theorem sf_blocked_cases {s : SF.St} {t : Tid} {x : Nat} (hb : SF.step s t x = n
   unfold SF.step at hb
   split at hb <;> (try split at hb) <;> simp_all
 
+/-- the mutex holder can always take its next step (it is never inside user code, never at a wait). -/
 theorem sf_holder_enabled {s : SF.St} (u : Tid) (hu : (s.pc u).holdsLock = true) (y : Nat) :
     (SF.step s u y).isSome = true := by
   unfold SF.step
@@ -194,6 +195,9 @@ example : (SF.run SF.init (sfDemo.take 12)).map
 
 /-! ## LockedCalls (core/syncx/lockedcalls.go) -/
 
+/-- **No two executions for the same key overlap**: two goroutines that both have their wait group registered in
+`lg.m` (from `lg.m[key] = &wg` until `delete(lg.m, key)` — the caller's function runs strictly inside) for the same
+key are the same goroutine. -/
 theorem lc_exclusive_per_key {s : LC.St} (h : LC.Reach s) (t u : Tid)
     (ht : (s.pc t).inFlight = true) (hu : (s.pc u).inFlight = true) (hk : s.key t = s.key u) : t = u := by
   have hi := LC.inv_reach h
@@ -206,6 +210,23 @@ theorem lc_exclusive_per_key {s : LC.St} (h : LC.Reach s) (t u : Tid)
   rw [e] at d
   rw [← c, d]
 
+/-- **History form**: the execution intervals of two different calls on the same key are disjoint (every call
+allocates its own wait group `c`, `d`; `fstart`/`fend` are the clock values at which its function started / ended). -/
+theorem lc_exec_disjoint {s : LC.St} (h : LC.Reach s) (c d : Nat) (hne : c ≠ d) (hk : s.ekey c = s.ekey d)
+    (a a' : Nat) (hc : s.fstart c = some a) (hd : s.fstart d = some a') :
+    (∃ b, s.fend c = some b ∧ b < a') ∨ (∃ b, s.fend d = some b ∧ b < a) := by
+  rcases (LC.invX_reach h).disj c d a a' hne hk hc hd with h1 | h1
+  · left
+    cases hf : s.fend c with
+    | none => rw [hf] at h1; exact absurd h1 (by simp [LC.endsBefore])
+    | some b => rw [hf] at h1; exact ⟨b, rfl, h1⟩
+  · right
+    cases hf : s.fend d with
+    | none => rw [hf] at h1; exact absurd h1 (by simp [LC.endsBefore])
+    | some b => rw [hf] at h1; exact ⟨b, rfl, h1⟩
+
+/-- **Every caller's own function runs exactly once** during its call, and the call returns that function's
+result (never somebody else's). -/
 theorem lc_own_fn_once {s : LC.St} (h : LC.Reach s) (r : LRet) (hr : r ∈ s.rets) :
     r.runs = 1 ∧ r.val = r.own := by
   have := (LC.inv_reach h).rets r hr
@@ -217,6 +238,7 @@ theorem lc_blocked_cases {s : LC.St} {t : Tid} {x : Nat} (hb : LC.step s t x = n
   unfold LC.step at hb
   split at hb <;> (try split at hb) <;> simp_all
 
+/-- the mutex holder can always take its next step (it is never inside user code, never at a wait). -/
 theorem lc_holder_enabled {s : LC.St} (u : Tid) (hu : (s.pc u).holdsLock = true) (y : Nat) :
     (LC.step s u y).isSome = true := by
   unfold LC.step
@@ -224,6 +246,9 @@ theorem lc_holder_enabled {s : LC.St} (u : Tid) (hu : (s.pc u).holdsLock = true)
   cases hp : s.pc u <;> simp [LC.PC.holdsLock]
   split <;> simp
 
+/-- **Calls on different keys never wait for each other**: a blocked caller waits either for the holder of the
+mutex — who is inside a short critical section, never in user code, and always able to step — or, at `wg.Wait()`,
+for a goroutine *on the same key* whose wait group is still registered / not yet released. -/
 theorem lc_keys_independent {s : LC.St} (h : LC.Reach s) (t : Tid) (x : Nat) (hb : LC.step s t x = none) :
     (∃ u, s.lock = some u ∧ (s.pc u).holdsLock = true ∧ ∀ y, (LC.step s u y).isSome = true) ∨
     (s.pc t = .b3 ∧ ∃ u, s.key u = s.key t ∧ (s.pc u).wgOne = true ∧ s.reg u = s.reg t) := by
@@ -285,6 +310,7 @@ theorem lc_no_deadlock {s : LC.St} (h : LC.Reach s) (t : Tid) (ht : s.pc t ≠ .
         · exact lockcase hl
         · rw [hp] at hw; simp [LC.PC.wgOne] at hw
 
+/-- the model's control flow is the one its statement table (tied to the source in `Tie.lean`) lists. -/
 theorem lc_flow {s s' : LC.St} {t : Tid} {x : Nat} (hs : LC.step s t x = some s') :
     s'.pc t ∈ LC.succ (s.pc t) ∧ ∀ u, u ≠ t → s'.pc u = s.pc u := LC.step_flow hs
 
@@ -338,6 +364,7 @@ theorem rm_exclusive {s : RM.St} (h : RM.Reach s) (t u : Tid)
     (ht : (s.pc t).inFlight = true) (hu : (s.pc u).inFlight = true) (hk : s.key t = s.key u) : t = u :=
   RM.flight_unique (RM.inv_reach h) t u ht hu hk
 
+/-- the model's control flow is the one its statement table (tied to the source in `Tie.lean`) lists. -/
 theorem rm_flow {s s' : RM.St} {t : Tid} {x : Nat} (hs : RM.step s t x = some s') :
     s'.pc t ∈ RM.succ (s.pc t) ∧ ∀ u, u ≠ t → s'.pc u = s.pc u := RM.step_flow hs
 
